@@ -85,6 +85,18 @@ class Recorder:
     def on_sf(self, a):
         self.run.on_sf(self.g, a)
 
+    def __call__(self, api):
+        """ONE callable for all four kinds (a generic audit listener): the kind is that of the
+        notification being dispatched (function 0, registered first for every kind, has
+        pushed it)"""
+        K = self.run.stack[-1][1] if self.run.stack else "TS"
+        getattr(self.run, "on_" + K.lower())(self.g, api)
+
+
+def generic(g, weak):
+    """functions registered as ONE object for every kind (not as four bound methods)"""
+    return g != 0 and g % 2 == 0 and g not in weak
+
 
 class EndObserver(Observer):
     """the handlers send the LOG_EVENT entry right after their loop over the functions"""
@@ -103,6 +115,8 @@ def ident(cb):
         cb = cb()
         if cb is None:
             return -1                      # a dead entry
+    if isinstance(cb, Recorder):
+        return cb.g
     o = getattr(cb, "__self__", None)
     if isinstance(o, Recorder):
         return o.g
@@ -188,7 +202,7 @@ class RegRun(impl_run.ImplRun):
 
     def do_register(self, K, g, by):
         s = self.s
-        meth = getattr(self.recorder(g), "on_" + K.lower())
+        meth = self.recorder(g) if generic(g, self.weak) else getattr(self.recorder(g), "on_" + K.lower())
         fn = {"TS": s.register_callback_task_started, "TF": s.register_callback_task_finished,
               "SS": s.register_callback_service_started, "SF": s.register_callback_service_finished}[K]
         ret = fn(meth)
